@@ -89,7 +89,7 @@ func (p *planner) pairFamilies(fns []string, n int) {
 	// (the "skip two runes" steps of the brute-force search, the skip loop's fails counter)
 	p.fam = "letter-runs"
 	for i := 0; i < n/2; i++ {
-		letters := []string{"a", "A", "é", "É", "Ⱥ", "ⱥ", "k", "K", "K", "s", "ſ", "ß", "ẞ", "σ", "ς", "Σ", "z", "я", "𐐀", "𐐨", "1"}
+		letters := []string{"a", "A", "é", "É", "Ⱥ", "ⱥ", "k", "K", "\u212a", "s", "ſ", "ß", "ẞ", "σ", "ς", "Σ", "z", "я", "𐐀", "𐐨", "1"}
 		L := letters[g.R.Intn(len(letters))]
 		o := gen.Orbit([]rune(L)[0])
 		run := func(m int) []byte {
@@ -114,6 +114,56 @@ func (p *planner) pairFamilies(fns []string, n int) {
 			continue
 		}
 		p.pair(fns, gen.Pair{S: s, T: t})
+	}
+	// a match at the very end of the haystack whose needle is (much) longer in bytes: first rune of
+	// every width, then only runes that shrink when folded (K→k 3:1, ſ→s 2:1, ẞ→ß 3:2); the shape the
+	// search-window bound `t` must allow for
+	p.fam = "tail-shrink"
+	for i := 0; i < n/2; i++ {
+		firsts := []string{"x", "K", "é", "ſ", "世", "\u212a", "★", "ẞ", "𐐀", "𐐨", "😀"}
+		f := []rune(firsts[g.R.Intn(len(firsts))])[0]
+		fo := gen.Orbit(f)
+		hay := string(fo[g.R.Intn(len(fo))])
+		needle := string(fo[g.R.Intn(len(fo))])
+		for m := g.R.Intn(5); m > 0; m-- {
+			switch g.R.Intn(4) {
+			case 0, 1:
+				hay += []string{"k", "K"}[g.R.Intn(2)]
+				needle += "\u212a"
+			case 2:
+				hay += []string{"s", "S"}[g.R.Intn(2)]
+				needle += "ſ"
+			default:
+				hay += "ß"
+				needle += "ẞ"
+			}
+		}
+		if i%4 == 0 {
+			// exact length ratios: the whole needle is one shrinking partner repeated (len(sub) = 3x or
+			// 2x the matched text), short or no pad, so the `n >= len(s)` pre-checks are on the edge
+			m := 1 + g.R.Intn(4)
+			k := g.R.Intn(3)
+			hay = strings.Repeat([]string{"k", "s", "ß"}[k], m)
+			needle = strings.Repeat([]string{"\u212a", "ſ", "ẞ"}[k], m)
+			if g.R.Intn(2) == 0 {
+				hay = strings.ToUpper(hay[:1]) + hay[1:]
+			}
+		}
+		pl := gen.PadLens[g.R.Intn(len(gen.PadLens))]
+		if i%4 == 0 {
+			pl = g.R.Intn(4)
+		}
+		s := append(g.Pad(pl, g.R.Intn(2), nil), hay...)
+		switch g.R.Intn(5) {
+		case 0:
+			s = append(s, 'x')
+		case 1:
+			s = append(s, g.Str(1)...)
+		}
+		if g.Valid && !utf8.Valid(s) {
+			continue
+		}
+		p.pair(fns, gen.Pair{S: s, T: []byte(needle)})
 	}
 	p.fam = "small-exhaustive"
 	stride := 40 / g.Scale
@@ -187,7 +237,7 @@ func (p *planner) byteFamilies(fns []string, n int) {
 		c := "KkSs"[g.R.Intn(4)]
 		var s []byte
 		for j := g.R.Intn(6); j > 0; j-- {
-			s = append(s, []string{"x", "K", "ſ", "k", "S", "世", "\xe2\x84", "\xc5", "\xaa", "\xbf"}[g.R.Intn(10)]...)
+			s = append(s, []string{"x", "K", "\u212a", "ſ", "k", "S", "世", "\xe2\x84", "\xc5", "\xaa", "\xbf"}[g.R.Intn(11)]...)
 		}
 		if g.Valid && !utf8.Valid(s) {
 			continue
@@ -258,7 +308,7 @@ func (p *planner) dotlessFamilies(fns []string, n int) {
 	for i := 0; i < n; i++ {
 		x, y := is[g.R.Intn(4)], is[g.R.Intn(4)]
 		pre := []string{"", "x", "é", "世"}[g.R.Intn(4)]
-		post := []string{"", "y", "ß", "K"}[g.R.Intn(4)]
+		post := []string{"", "y", "ß", "\u212a"}[g.R.Intn(4)]
 		needle := pre + x + post
 		hay := pre + y + post
 		if g.R.Intn(3) == 0 {
@@ -270,6 +320,31 @@ func (p *planner) dotlessFamilies(fns []string, n int) {
 			s = append(s, g.Pad(g.R.Intn(20), 0, nil)...)
 		}
 		p.pair(fns, gen.Pair{S: s, T: []byte(needle)})
+	}
+}
+
+// singleByteCount: Count/Cut/Index… with one-byte needles (the byte kernels behind Count)
+func (p *planner) singleByteCount(fns []string, n int) {
+	g := p.g
+	p.fam = "single-byte-needle"
+	for i := 0; i < n; i++ {
+		c := "KkSsaZ1"[g.R.Intn(7)]
+		var s []byte
+		for j := g.R.Intn(8); j > 0; j-- {
+			s = append(s, []string{"x", "K", "ſ", "k", "S", "s", "\u212a", "a", "A", "z", "1"}[g.R.Intn(11)]...)
+		}
+		p.pair(fns, gen.Pair{S: s, T: []byte{c}})
+		// any ASCII byte against itself, its other case and its 0x20-neighbours (the byte kernel's
+		// letter test: '@' '[' '`' '{' must not be folded), on both sides of the SIMD thresholds
+		c = byte(g.R.Intn(128))
+		if g.R.Intn(2) == 0 {
+			c = "@[`{AZaz\x40\x5b\x60\x7b"[g.R.Intn(12)]
+		}
+		s = g.Pad([]int{0, 3, 15, 16, 17, 33, 64, 70}[g.R.Intn(8)], 0, nil)
+		for j := g.R.Intn(6); j > 0; j-- {
+			s = append(s, []byte{c, c ^ 0x20, c | 0x20, c &^ 0x20, 'x'}[g.R.Intn(5)])
+		}
+		p.pair(fns, gen.Pair{S: s, T: []byte{c}})
 	}
 }
 
@@ -290,6 +365,13 @@ func plan(prop string, seed int64, scale int) []op {
 		p := mk(false)
 		p.std = true
 		p.pairFamilies([]string{"EqualFold"}, n)
+		p.fam = "fold-table-sweep"
+		for r := rune(0); r <= unicode.MaxRune; r++ {
+			if f := verifhooks.CaseFold(r); f != r && utf8.ValidRune(r) && utf8.ValidRune(f) {
+				p.pair([]string{"EqualFold"}, gen.Pair{S: []byte(string(r)), T: []byte(string(f))})
+				p.pair([]string{"EqualFold"}, gen.Pair{S: []byte("a" + string(f)), T: []byte("A" + string(r))})
+			}
+		}
 		return p.ops
 	case "C04":
 		p := mk(false)
@@ -308,6 +390,7 @@ func plan(prop string, seed int64, scale int) []op {
 		p.runeFamilies(fnRune, n/2)
 		p.byteFamilies(fnByte, n/2)
 		p.oneFamilies(fnOne, n/4)
+		p.singleByteCount(concat(fnCount, fnSearch, fnLast), n/2)
 		return p.ops
 	case "C08":
 		p := mk(true)
@@ -353,11 +436,11 @@ func plan(prop string, seed int64, scale int) []op {
 				s = g.Pad(ls, 3, nil)
 			}
 			if g.R.Intn(2) == 0 {
-				s = append(s, []string{"K", "ſ", "k", "S", "世", "é", "1"}[g.R.Intn(7)]...)
+				s = append(s, []string{"\u212a", "ſ", "k", "S", "世", "é", "1"}[g.R.Intn(7)]...)
 			}
 			var chars []byte
 			for j := g.R.Intn(6); j > 0; j-- {
-				chars = append(chars, []string{"k", "K", "s", "S", "K", "ſ", "a", "1", "é", "世", "z", "-"}[g.R.Intn(12)]...)
+				chars = append(chars, []string{"k", "K", "s", "S", "\u212a", "ſ", "a", "1", "é", "世", "z", "-"}[g.R.Intn(12)]...)
 			}
 			if g.R.Intn(4) == 0 {
 				chars = append(chars, g.Str(1)...)
@@ -381,27 +464,7 @@ func plan(prop string, seed int64, scale int) []op {
 			}
 			p.pair(concat(fnCount, []string{"Index"}), gen.Pair{S: s, T: t})
 		}
-		p.fam = "single-byte-needle"
-		for i := 0; i < n/2; i++ {
-			g := p.g
-			c := "KkSsaZ1"[g.R.Intn(7)]
-			var s []byte
-			for j := g.R.Intn(8); j > 0; j-- {
-				s = append(s, []string{"x", "K", "ſ", "k", "S", "s", "K", "a", "A", "z", "1"}[g.R.Intn(11)]...)
-			}
-			p.pair(fnCount, gen.Pair{S: s, T: []byte{c}})
-			// any ASCII byte against itself, its other case and its 0x20-neighbours (the byte kernel's
-			// letter test: '@' '[' '`' '{' must not be folded), on both sides of the SIMD thresholds
-			c = byte(g.R.Intn(128))
-			if g.R.Intn(2) == 0 {
-				c = "@[`{AZaz\x40\x5b\x60\x7b"[g.R.Intn(12)]
-			}
-			s = g.Pad([]int{0, 3, 15, 16, 17, 33, 64, 70}[g.R.Intn(8)], 0, nil)
-			for j := g.R.Intn(6); j > 0; j-- {
-				s = append(s, []byte{c, c ^ 0x20, c | 0x20, c &^ 0x20, 'x'}[g.R.Intn(5)])
-			}
-			p.pair(fnCount, gen.Pair{S: s, T: []byte{c}})
-		}
+		p.singleByteCount(fnCount, n/2)
 		return p.ops
 	case "C15":
 		p := mk(false)
@@ -431,6 +494,7 @@ func plan(prop string, seed int64, scale int) []op {
 		return p.ops
 	case "C16":
 		p := mk(true)
+		p.pairFamilies(fnAll2, n/4)
 		p.fam = "recase"
 		for i := 0; i < n; i++ {
 			g := p.g
@@ -465,11 +529,13 @@ func plan(prop string, seed int64, scale int) []op {
 		p.runeFamilies(fnRune, n/3)
 		p.byteFamilies(fnByte, n/3)
 		p.oneFamilies(fnOne, n/4)
+		p.singleByteCount(concat(fnCount, fnSearch, fnLast), n/2)
 		return p.ops
 	case "C19":
 		p := mk(true)
-		p.fam = "embedding"
 		fns := concat(fnSearch, fnLast, []string{"HasPrefix", "HasSuffix", "Count"})
+		p.pairFamilies(fns, n/3)
+		p.fam = "embedding"
 		for i := 0; i < n*2; i++ {
 			g := p.g
 			var pr gen.Pair
@@ -636,6 +702,7 @@ func plan(prop string, seed int64, scale int) []op {
 			gen.Ops2([]string{"Count"}, p.sfx, gen.Pair{S: s, T: []byte{c & 0x7F}}, p.emit)
 		}
 		if prop == "C14" {
+			p.singleByteCount(fnCount, n/2)
 			p.pairFamilies(fnAll2, n/4)
 			p.runeFamilies(concat(fnRune, []string{"indexRuneCase"}), n/2)
 			p.byteFamilies(fnByte, n/3)
